@@ -41,11 +41,12 @@ class FileManager:
             # trailing newline), so append the note instead of overwriting
             # the last line.
             start_idx = end_idx = len(zlines)
-        new_zlines = (
-            zlines[:start_idx]
-            + note.to_string().split("\n")
-            + zlines[end_idx:]
-        )
+        note_lines = note.to_string().split("\n")
+        if all(line.startswith("#") for line in zlines[:start_idx]):
+            # The page consists of its header only, so keep the blank line
+            # that MUST separate a page's header from its first block.
+            note_lines.insert(0, "")
+        new_zlines = zlines[:start_idx] + note_lines + zlines[end_idx:]
         new_zcontents = "\n".join(new_zlines)
         zpage.write_text(new_zcontents)
         return None
